@@ -731,6 +731,7 @@ func (e *Engine) applyContract(fr *Frame, st *State, reach Term, fc *FuncContrac
 			} else {
 				e.assume(reach, Eq(results[k].L[0], r))
 			}
+			e.siteDeps[results[k].L[leaf].S] = append(e.siteDeps[results[k].L[leaf].S], site)
 			freshLeaf[k] = leaf
 		}
 	}
@@ -785,6 +786,9 @@ func (e *Engine) applyContract(fr *Frame, st *State, reach Term, fc *FuncContrac
 	for _, en := range fc.Ensures {
 		if usesTrace(en.E) {
 			continue // talks about the callee's own call sites: meaningful only inside the callee
+		}
+		if en.Kind == "trusted_ensures" {
+			e.used["TRUSTED postcondition of "+fc.ID+" (not checked against its body): "+en.Text] = true
 		}
 		env := e.newEnv(nil, st)
 		env.bind = post
@@ -1063,28 +1067,33 @@ func (e *Engine) appendOp(fr *Frame, st *State, reach Term, c *ssa.CallCommon, a
 		inSort := ArraySort(SInt, lf.Sort)
 		arr := st.comp(name, ArraySort(SInt, inSort))
 		oldInner := e.name("aold", Select(arr, sArr, inSort))
-		ni := e.fresh("anew", inSort)
-		// kept prefix
-		e.assumes = append(e.assumes, T(SBool, "(forall ((a Int)) (! (=> (and (<= %s a) (< a (+ %s %s))) (= (select %s a) (select %s (+ (- a %s) %s)))) :pattern ((select %s a))))",
-			rOff, rOff, sLen, ni, oldInner, rOff, sOff, ni))
-		// appended elements
+		// grown: a fresh array holding a copy of the old elements followed by the new ones
+		niG := e.fresh("agrown", inSort)
+		e.assumes = append(e.assumes, T(SBool, "(forall ((a Int)) (! (=> (and (<= 0 a) (< a %s)) (= (select %s a) (select %s (+ a %s)))) :pattern ((select %s a))))",
+			sLen, niG, oldInner, sOff, niG))
+		var niNG Term // in place: the old array with the new elements written behind the old ones
 		if !tIsStr && isConstOne(tLen) {
-			tv := Select(Select(arr, t.L[0], inSort), t.L[1], lf.Sort)
-			e.assumes = append(e.assumes, Eq(Select(ni, Bin(SInt, "+", rOff, sLen), lf.Sort), tv))
+			tv := e.name("aelem", Select(Select(arr, t.L[0], inSort), t.L[1], lf.Sort))
+			e.assumes = append(e.assumes, Eq(Select(niG, sLen, lf.Sort), tv))
+			niNG = Store(oldInner, Bin(SInt, "+", sOff, sLen), tv)
 		} else {
-			var src string
+			var srcG, srcN string
 			if tIsStr {
-				src = fmt.Sprintf("(strat %s (- a (+ %s %s)))", t.L[0], rOff, sLen)
+				srcG = fmt.Sprintf("(strat %s (- a %s))", t.L[0], sLen)
+				srcN = fmt.Sprintf("(strat %s (- a (+ %s %s)))", t.L[0], sOff, sLen)
 			} else {
-				src = fmt.Sprintf("(select %s (+ (- a (+ %s %s)) %s))", Select(arr, t.L[0], inSort), rOff, sLen, t.L[1])
+				tin := e.name("asrc", Select(arr, t.L[0], inSort))
+				srcG = fmt.Sprintf("(select %s (+ (- a %s) %s))", tin, sLen, t.L[1])
+				srcN = fmt.Sprintf("(select %s (+ (- a (+ %s %s)) %s))", tin, sOff, sLen, t.L[1])
 			}
-			e.assumes = append(e.assumes, T(SBool, "(forall ((a Int)) (! (=> (and (<= (+ %s %s) a) (< a (+ %s %s))) (= (select %s a) %s)) :pattern ((select %s a))))",
-				rOff, sLen, rOff, nLen, ni, src, ni))
+			e.assumes = append(e.assumes, T(SBool, "(forall ((a Int)) (! (=> (and (<= %s a) (< a %s)) (= (select %s a) %s)) :pattern ((select %s a))))", sLen, nLen, niG, srcG, niG))
+			n2 := e.fresh("ainplace", inSort)
+			e.assumes = append(e.assumes,
+				T(SBool, "(forall ((a Int)) (! (=> (and (<= (+ %s %s) a) (< a (+ %s %s))) (= (select %s a) %s)) :pattern ((select %s a))))", sOff, sLen, sOff, nLen, n2, srcN, n2),
+				T(SBool, "(forall ((a Int)) (! (=> (or (< a (+ %s %s)) (>= a (+ %s %s))) (= (select %s a) (select %s a))) :pattern ((select %s a))))", sOff, sLen, sOff, nLen, n2, oldInner, n2))
+			niNG = n2
 		}
-		// in place: the rest of the backing array is untouched
-		e.assumes = append(e.assumes, Implies(Not(grow), T(SBool, "(forall ((a Int)) (! (=> (or (< a %s) (>= a (+ %s %s))) (= (select %s a) (select %s a))) :pattern ((select %s a))))",
-			rOff, rOff, nLen, ni, oldInner, ni)))
-		st.setComp(name, e.define("h", Store(arr, rArr, ni)))
+		st.setComp(name, e.define("h", Ite(grow, Store(arr, nr, niG), Store(arr, sArr, niNG))))
 	}
 	return Val{T: resType, L: []Term{rArr, rOff, nLen, nCap}}
 }
